@@ -309,7 +309,8 @@ void body(vf::Ctx & c)
   cd.n = (nc == 0) ? static_cast<int>(c.s.i("n", 6, 12)) : (nc == 1 ? static_cast<int>(c.s.i("n", 13, 60)) : static_cast<int>(c.s.len("n", 61, 500)));
   const int n = cd.n;
   // identity correspondences / permuted / permuted + unmatched extra points / each source point matched ~3 times
-  size_t layout = c.s.pick("layout", {1, 2, 2, 1});
+  // ... / identity pairing except for a 3-cycle among interior points (first and last pair stay in place)
+  size_t layout = c.s.pick("layout", {1, 2, 2, 1, 1});
   int extraS = 0, extraT = 0;
   if (layout == 2) {extraS = static_cast<int>(c.s.i("extra_source", 0, 6)); extraT = static_cast<int>(c.s.i("extra_target", 0, 6));}
   const double Llo = isFloat ? 0.05 : 0.02, Lhi = isFloat ? 20.0 : 50.0;
@@ -335,7 +336,18 @@ void body(vf::Ctx & c)
   std::vector<int> ps(Ns), pt(Nt);
   for (int i = 0; i < Ns; ++i) {ps[i] = i;}
   for (int i = 0; i < Nt; ++i) {pt[i] = i;}
-  if (layout != 0) {
+  if (layout == 4) {
+    // complete pairing that looks like the identity at both ends: three interior targets rotated
+    if (n >= 5) {
+      int a = 1 + static_cast<int>(rng.below(static_cast<uint64_t>(n - 4)));
+      int b = a + 1 + static_cast<int>(rng.below(static_cast<uint64_t>(n - 2 - a - 1 + 1) > 1 ? static_cast<uint64_t>(n - 3 - a) : 1));
+      if (b >= n - 2) {b = n - 3;}
+      if (b <= a) {b = a + 1;}
+      int cidx = n - 2;
+      int tb = pt[b], tc = pt[cidx], ta = pt[a];
+      pt[a] = tb; pt[b] = tc; pt[cidx] = ta;
+    }
+  } else if (layout != 0) {
     for (int i = Ns - 1; i > 0; --i) {std::swap(ps[i], ps[rng.below(i + 1)]);}
     for (int i = Nt - 1; i > 0; --i) {std::swap(pt[i], pt[rng.below(i + 1)]);}
   }
@@ -448,6 +460,7 @@ void body(vf::Ctx & c)
   c.labelIf(crossed, "source-index!=target-index");
   c.labelIf(layout == 2 && (extraS > 0 || extraT > 0), "unmatched-extra-points");
   c.labelIf(layout == 3, "source-points-matched-several-times");
+  c.labelIf(layout == 4, "identity-pairing-except-an-interior-cycle");
   c.labelIf(kk < 1, "precond-scale<1");
   c.labelIf(kk > 1, "precond-scale>1");
   c.labelIf(kk == 1, "precond-scale-exactly-1");
